@@ -754,25 +754,57 @@ def investigation_rule(repo, rep):
     okd = len(dflt) == 1 and _k(dflt[0].stmt.value) == "self._t_[0]" and "timeisNone" in _fact_set(dflt[0])
     rep.ob("INV", okd, "get_statuses: default time is the first time of the simulation", func=gs, node=dflt[0].stmt if dflt else gs.node,
            construct="default time", detail="" if okd else "default query time changed")
-    # summary deltas
+    # summary deltas (local aliases such as node_statuses = self._node_history_[node][1] are written out first)
+    import re as _re
+    alias = {}
+    for x in own_nodes(sm.node):
+        if isinstance(x, ast.Assign) and len(x.targets) == 1 and isinstance(x.targets[0], ast.Name):
+            alias.setdefault(x.targets[0].id, []).append(x.value)
+    alias = {k: v[0] for k, v in alias.items() if isinstance(v[0], (ast.Subscript, ast.Attribute))}
+
+    def ex(e, depth=0):
+        t = _k(e)
+        for _ in range(4):
+            t2 = t
+            for nm, v in alias.items():
+                t2 = _re.sub(r"(?<![\w.])%s(?![\w])" % _re.escape(nm), _k(v), t2)
+            if t2 == t:
+                break
+            t = t2
+        return t
+    NODE = r"self\._node_history_\[(\w+)\]"
     okp = okm = okz = False
+    dname = None
     for c in walk_function(sm.node):
         st = c.stmt
-        if isinstance(st, ast.For) and isinstance(st.iter, ast.Call) and _k(st.iter.func) == "zip":
-            args = [_k(a) for a in st.iter.args]
-            tg = [_k(e) for e in st.target.elts]
-            okz = args == ["node_statuses[1:]", "node_statuses[:-1]", "node_times[1:]"] and tg == ["new_status", "old_status", "time"]
-            b = [_k(s) for s in st.body]
-            okp = "delta[new_status][time]=delta[new_status][time]+1" in b or "delta[new_status][time]+=1" in b
-            okm = "delta[old_status][time]=delta[old_status][time]-1" in b or "delta[old_status][time]-=1" in b
+        if isinstance(st, ast.For) and isinstance(st.iter, ast.Call) and _k(st.iter.func) == "zip" and isinstance(st.target, ast.Tuple) \
+                and len(st.target.elts) == 3 and len(st.iter.args) == 3:
+            args = [ex(a) for a in st.iter.args]
+            m0 = _re.fullmatch(NODE + r"\[1\]\[1:\]", args[0])
+            okz = bool(m0) and args[1] == "self._node_history_[%s][1][:-1]" % m0.group(1) and args[2] == "self._node_history_[%s][0][1:]" % m0.group(1)
+            new_, old_, t_ = [_k(e) for e in st.target.elts]
+            for b_ in st.body:
+                tx = _k(b_)
+                mp = _re.fullmatch(r"(\w+)\[%s\]\[%s\](?:\+=1|=\1\[%s\]\[%s\]\+1)" % (new_, t_, new_, t_), tx)
+                mm_ = _re.fullmatch(r"(\w+)\[%s\]\[%s\](?:-=1|=\1\[%s\]\[%s\]-1)" % (old_, t_, old_, t_), tx)
+                if mp:
+                    okp, dname = True, mp.group(1)
+                if mm_:
+                    okm = okm or (dname is None or mm_.group(1) == dname)
     rep.ob("INV", okz and okp and okm, "summary: each change adds 1 to the new status and removes 1 from the old one at the change time",
            func=sm, node=sm.node, construct="summary deltas zip=%s +1=%s -1=%s" % (okz, okp, okm),
-           detail="" if (okz and okp and okm) else "summary delta bookkeeping changed")
-    t = ast.unparse(sm.node).replace(" ", "")
-    oki = "delta[node_statuses[0]][tmin]+=1" in t and "t=np.array(sorted(list(times)))" in t and \
-        "mysummary[1][status].append(mysummary[1][status][-1]+delta[status][time])" in t
+           detail="" if (okz and okp and okm) else "summary delta bookkeeping changed (consecutive (new, old, time) triples of one node's history; "
+           "+1 for the new status and -1 for the old one at that time)")
+    d = dname or "delta"
+    stm = [ex(x) for x in own_nodes(sm.node) if isinstance(x, (ast.Assign, ast.AugAssign, ast.Expr))]
+    ini = any(_re.fullmatch(r"%s\[%s\[1\]\[0\]\]\[%s\[0\]\[0\]\](?:\+=1|=.*\+1)" % (d, NODE, NODE), t) for t in stm)
+    srt = any(_re.fullmatch(r"(\w+)=np\.array\(sorted\((?:list\()?(\w+)\)?\)\)", t) for t in stm)
+    acc = any(_re.fullmatch(r"(.+)\[(\w+)\]\.append\(\1\[\2\]\[-1\]\+%s\[\2\]\[(\w+)\]\)" % d, t) for t in stm)
+    oki = ini and srt and acc
     rep.ob("INV", oki, "summary: starts from the initial statuses and accumulates the deltas in time order", func=sm, node=sm.node,
-           construct="summary accumulation", detail="" if oki else "summary accumulation changed")
+           construct="summary accumulation initial=%s sorted=%s accumulate=%s" % (ini, srt, acc),
+           detail="" if oki else "summary accumulation changed (initial +1 at the first change time of each node; times sorted; "
+           "running value = previous value + delta at that time)")
     for nm, key in (("t", "self._summary_[0]"), ("S", "self._summary_[1]['S']"), ("I", "self._summary_[1]['I']"), ("R", "self._summary_[1]['R']")):
         m = repo.method("Simulation_Investigation", nm)
         rets = [_k(n.value) for n in own_nodes(m.node) if isinstance(n, ast.Return)]
